@@ -1,10 +1,10 @@
 #!/bin/bash
 # seed2quick.sh <seed-dir-name> ids... : apply a stored seed, run checks, undo (no re-verification)
 S=/verif/seeded/$1; shift
-git -C /repo apply "$S/patch.diff" 2>/dev/null || git -C /repo apply -3 "$S/patch.diff" || { echo "patch does not apply"; git -C /repo reset -q; git -C /repo checkout -- .; exit 2; }
+git -C /repo apply "$S/patch.diff" 2>/dev/null || git -C /repo apply -3 "$S/patch.diff" || { echo "patch does not apply"; git -C /repo reset -q; git -C /repo checkout -- .; git -C /repo clean -fdq; exit 2; }
 for p in "$@"; do
   out=$(cd /verif && ./check $p quick 2>&1); rc=$?
   echo "== $p rc=$rc"; echo "$out" | grep -E 'VIOLATION|OK property|violation\[' | head -4 | cut -c1-300
 done
-git -C /repo reset -q; git -C /repo checkout -- .
+git -C /repo reset -q; git -C /repo checkout -- .; git -C /repo clean -fdq
 git -C /repo status --short
